@@ -151,3 +151,95 @@ func extractOf(call *ssa.Call, idx int) []ssa.Value {
 	}
 	return out
 }
+
+// runnerState names, by what they do, the pieces of the runner's cancellation
+// state: the context commands run under and its cancel function (the one
+// context.WithCancel pair stored in pkg/runner), the flag Cancel sets, the
+// mutex Cancel takes exclusively and the WaitGroup Cancel waits on. They are
+// type-qualified field labels ("TaskRunner.ctx", or "runGate.ctx" when the
+// state was moved into a type of its own).
+type runnerState struct {
+	ctx, cancel, canceling, mutex, running string
+	ctor                                   *ssa.Function // where the pair is stored
+}
+
+var runnerStateCache = map[*an.Prog]*runnerState{}
+
+func resolveRunnerState(p *an.Prog) *runnerState {
+	if rs, ok := runnerStateCache[p]; ok {
+		return rs
+	}
+	rs := &runnerState{ctx: "TaskRunner.ctx", cancel: "TaskRunner.cancelFunc", canceling: "TaskRunner.canceling", mutex: "TaskRunner.cancelMutex", running: "TaskRunner.running"}
+	runnerStateCache[p] = rs
+	type pair struct {
+		ctx, cancel string
+		fn          *ssa.Function
+	}
+	var pairs []pair
+	for _, fn := range p.Funcs {
+		if !inPkgs("pkg/runner")(fn) {
+			continue
+		}
+		byCall := map[*ssa.Call]*pair{}
+		an.EachInstr(fn, func(in ssa.Instruction) {
+			st, ok := in.(*ssa.Store)
+			if !ok {
+				return
+			}
+			fa, ok := st.Addr.(*ssa.FieldAddr)
+			e, ok2 := st.Val.(*ssa.Extract)
+			if !ok || !ok2 {
+				return
+			}
+			call, ok := e.Tuple.(*ssa.Call)
+			if !ok || an.ShortCallee(&call.Call) != "context.WithCancel" {
+				return
+			}
+			pr := byCall[call]
+			if pr == nil {
+				pr = &pair{fn: fn}
+				byCall[call] = pr
+			}
+			if e.Index == 0 {
+				pr.ctx = an.TypeField(fa)
+			} else {
+				pr.cancel = an.TypeField(fa)
+			}
+		})
+		for _, pr := range byCall {
+			if pr.ctx != "" && pr.cancel != "" {
+				pairs = append(pairs, *pr)
+			}
+		}
+	}
+	if len(pairs) == 1 {
+		rs.ctx, rs.cancel, rs.ctor = pairs[0].ctx, pairs[0].cancel, pairs[0].fn
+	}
+	cancelFn := p.Func("pkg/runner", "TaskRunner", "Cancel")
+	if cancelFn != nil {
+		scope := p.Reach([]*ssa.Function{cancelFn}, func(e an.CallEdge) bool { return e.Kind == an.EdgeCall && inPkgs("pkg/runner")(e.Callee) })
+		for g := range scope {
+			if g.Blocks == nil {
+				continue
+			}
+			for _, ci := range an.CallsIn(g, fnWgWait) {
+				rs.running = groupKey(ci.Common().Args[0])
+			}
+			for _, op := range an.BlockingOps(g) {
+				if op.Kind == "lock" && op.OnVal != nil {
+					rs.mutex = groupKey(op.OnVal)
+				}
+			}
+			an.EachInstr(g, func(in ssa.Instruction) {
+				if st, ok := in.(*ssa.Store); ok {
+					if fa, ok := st.Addr.(*ssa.FieldAddr); ok {
+						if k, ok := st.Val.(*ssa.Const); ok && k.Value != nil && k.Value.ExactString() == "true" {
+							rs.canceling = an.TypeField(fa)
+						}
+					}
+				}
+			})
+		}
+	}
+	return rs
+}
